@@ -6,8 +6,13 @@
    the emitted wire_size() of the decoded form of x, plus 4 bytes for each inline
    variable-length opaque field/arm in x (nF1 x -- finding F1), is exactly the length of the
    RFC 4506 encoding of x.  So wire_size() is exact precisely when nF1 x = 0, and the
-   deviation is never anything else.  Proofs in XdrProofs.SizeProofs. *)
-From XdrProofs Require Import SizeProofs.
+   deviation is never anything else.
+   C02_decoder_consumes_wire_size -- the second sentence of the property, for EVERY accepted
+   input, canonical encoding or not: on a specification satisfying sup4_b with no inline
+   variable-length opaque position (nof1_b: finding F1 excluded), whenever an emitted decoder
+   returns Ok v it has consumed exactly wire_size(v) bytes.
+   Proofs in XdrProofs.SizeProofs / Consumed. *)
+From XdrProofs Require Import SizeProofs Consumed.
 Open Scope N_scope.
 Open Scope list_scope.
 
@@ -30,6 +35,18 @@ Print Assumptions C02_exact.
 
 (* every generated wire_size() is a whole number of words: this is what makes the unguarded
    `self.advance(pad_length(sum))` of read_variable_array a no-op *)
+Theorem C02_decoder_consumes_wire_size :
+  forall (A : ast) (md : module_ir) (n : string) (t : ast_type) (fuel : nat) (s : st),
+    gen A = EOk md -> sup4_b A = true -> nof1_b A = true -> get_type A n = Some t ->
+    bytes_ok (s_rem s) ->
+    match dec md fuel n s with
+    | Ok v s' => wsz md v = Some (remaining s - remaining s') /\ remaining s' <= remaining s
+    | Panic _ => False
+    | _ => True
+    end.
+Proof. exact consumed_b. Qed.
+Print Assumptions C02_decoder_consumes_wire_size.
+
 Theorem C02_wsz_mult4 :
   forall (A : ast) (md : module_ir),
     gen A = EOk md -> wf_size A ->
